@@ -1,5 +1,6 @@
 import PdshVerif.Base.Hex
 import PdshVerif.Exec.Format
+import PdshVerif.Exec.EndToEnd
 import PdshVerif.Exec.Spec
 import PdshVerif.Opt.Rcmd
 import PdshVerif.Opt.RcmdSpec
@@ -13,6 +14,9 @@ import Driver.Util
      fmt  HOST USER RANK MEM             -> ok HEX | null | ub
      args HOST USER RANK PATH TAIL ARG*  -> ok A0 A1 ... | ub
      req  PORT|none LUSER RUSER CMD      -> HEX of the wire request
+     writes PORT|none LUSER RUSER CMD    -> HEX of xrcmd's write(2) calls, concatenated
+     execv HOST USER RANK TAIL CMD WORD* -> ok PATH A0 A1 ... | ub   (execcmd + pipecmd: WORDs = the
+                                            remote command words, none = interactive mode, CMD = opt->cmd)
      reg  loaded=L env=S|~ R=S|~ l=S|~ luser=S T=L W=TEXT/L/L ...   (S hex, L = hex+hex+..., W = word
           text / first-level names / final names; RCMD_RANK_LIST comes from Gen)
                                          -> fatal | ok TYPE|HOST|USER|RANK ...   (TYPE `~` = no module)
@@ -90,11 +94,11 @@ def showLines (ls : List Opt.Rcmd.Line) : String :=
     " " ++ (match l.rtype with | some t => hx t | none => "~") ++ "|" ++ hx l.host ++ "|" ++ hx l.user ++
     "|" ++ toString l.rank)
 
-def regModel (toks : List String) : String :=
+def regModel (re : Bool) (toks : List String) : String :=
   match parseReg toks emptyCase with
   | none => "bad-op"
   | some c =>
-    match Opt.Rcmd.run c.cfg c.words c.targets with
+    match (if re then Opt.Rcmd.runRe c.cfg c.words c.targets else Opt.Rcmd.run c.cfg c.words c.targets) with
     | .fatal => "fatal"
     | .lines ls => showLines ls
 
@@ -115,7 +119,7 @@ def regSpec (toks : List String) : String :=
     else if ls.any (·.rtype.isNone) then "nodomain"
     else showLines ls
 
-def stepModel (v : Variant) (line : String) : String :=
+def stepModel (v : Variant) (re : Bool) (line : String) : String :=
   match Driver.words line with
   | ["fmt", h, u, r, m] =>
     match Hex.decodeToChars h, Hex.decodeToChars u, r.toNat?, Hex.decodeToChars m with
@@ -141,7 +145,23 @@ def stepModel (v : Variant) (line : String) : String :=
       | some p => hx (rshRequest p l r c)
       | none => "bad-op"
     | _, _, _ => "bad-op"
-  | "reg" :: rest => regModel rest
+  | ["writes", port, l, r, c] =>
+    match Hex.decodeToChars l, Hex.decodeToChars r, Hex.decodeToChars c with
+    | some l, some r, some c =>
+      let p : Option (Option Nat) := if port = "none" then some none else port.toNat?.map some
+      match p with
+      | some p => hx (xrcmdWrites p l r c).flatten
+      | none => "bad-op"
+    | _, _, _ => "bad-op"
+  | "execv" :: h :: u :: r :: t :: c :: rest =>
+    match Hex.decodeToChars h, Hex.decodeToChars u, r.toNat?, Hex.decodeToChars t, Hex.decodeToChars c,
+          decodeAll rest with
+    | some h, some u, some r, some t, some c, some ws =>
+      match execCall v ⟨h, u, r⟩ ws c t with
+      | some call => "ok " ++ hx call.path ++ " " ++ " ".intercalate (call.argv.map hx)
+      | none => "ub"
+    | _, _, _, _, _, _ => "bad-op"
+  | "reg" :: rest => regModel re rest
   | _ => "bad-op"
 
 def stepSpec (line : String) : String :=
@@ -173,7 +193,12 @@ def main (args : List String) : IO UInt32 := do
   match args with
   | ["model", v] =>
     match variantOf v with
-    | some v => Driver.forLines stdin () (fun _ l => ((), stepModel v l)); return 0
+    | some v => Driver.forLines stdin () (fun _ l => ((), stepModel v false l)); return 0
+    | none => IO.eprintln "variant: unchanged|repaired|d10|d11"; return 2
+  | ["model", v, "reexpand"] =>
+    -- reexpand = the proposed repair of F09-2BR (findings/C09.patch): Opt.Rcmd.reExpand
+    match variantOf v with
+    | some v => Driver.forLines stdin () (fun _ l => ((), stepModel v true l)); return 0
     | none => IO.eprintln "variant: unchanged|repaired|d10|d11"; return 2
   | ["spec"] => Driver.forLines stdin () (fun _ l => ((), stepSpec l)); return 0
   | _ => IO.eprintln "usage: pdshmodel rcmd model <variant> | spec"; return 2
